@@ -118,6 +118,12 @@ CLAIMED = {
   "design_ref": "DESIGN.md §5 C11, §10",
   "note": "Module-level C text (Init*, struct, exports) compiles by the matrix only. Trusted: CSem's reading of C; sanitizer completeness on executed paths.",
  },
+ "C06": {
+  "technique": "Lean 4 refinement proof: model of <module>Instantiate (step order and guards regenerated from c.c) refines a declarative instantiation spec + instance-state correspondence with the real output + e2e vs V8",
+  "text": "instantiate_refines_spec: for every module description, resolver and embedder state in which the specification does not trap, the emitted Instantiate (sequence and guards of the Init* calls regenerated from wasmCWriteInstantiateFunction on every run) yields exactly the specified state: imports bound to what the resolver returns, fresh zeroed memories/tables of minimum size, every byte/slot equal to the LAST active segment covering it (any number of overlapping segments; defined or imported objects), globals = their initialisers incl. imported globals, then the start function exactly once (start_once, no_start_no_call); instances_disjoint: operations on one instance leave another instance's own memories/tables/globals unchanged. The model's post-instantiation state is compared with the real instance (memory image, every global, table slots, import bindings) for generated and enumerated module shapes; the real output is run against V8 incl. two interleaved instances.",
+  "design_ref": "DESIGN.md §5 C06, §10",
+  "note": "Fits hypothesis: segments that do not fit are UB in the generated C (no bounds checks) and trap in the spec — outside the property. The start function is a parameter (its semantics is C03/C04). Export wrappers / symbol names are tied by e2e (link + call), not by a theorem. Trusted: tools/extract/gen_instantiate.py; V8 as reference.",
+ },
 }
 
 NOT_YET = {f"C{n:02d}": "check under construction in this round (model/theorems not yet committed); see DESIGN.md §8 build order" for n in range(1, 21)}
